@@ -13,12 +13,47 @@ pub proof fn axiom_fromset_key_model() ensures vstd::std_specs::hash::obeys_key_
 //@ C14 | default: fn table_ok
 spec fn table_ok(t: Map<FromSet, Vec<usize>>, n: int) -> bool { forall|k: FromSet, j: int| t.contains_key(k) && 0 <= j < t[k]@.len() ==> (#[trigger] t[k]@[j]) < n }
 
-//@ C14 | default: fn convert
+// ---- C13, top level: what a whole layout converts to ----
+pub open spec fn is_modifier_spec(k: KeyCode) -> bool {
+  k == KeyCode::LEFTSHIFT || k == KeyCode::RIGHTSHIFT || k == KeyCode::LEFTALT || k == KeyCode::RIGHTALT || k == KeyCode::LEFTCTRL || k == KeyCode::RIGHTCTRL || k == KeyCode::LEFTMETA || k == KeyCode::RIGHTMETA
+}
+pub open spec fn flat(chunks: Seq<Seq<(Seq<KeyCode>, Seq<KeyCode>)>>) -> Seq<(Seq<KeyCode>, Seq<KeyCode>)>
+  decreases chunks.len()
+{ if chunks.len() == 0 { Seq::empty() } else { flat(chunks.drop_last()) + chunks.last() } }
+/// the (trigger, output) pairs ONE source mapping stands for, given the alias table: an alias definition is itself a mapping unless it is a lone modifier;
+/// a single mapping: single_pairs; a row: row_pairs over the physical row; a repeat-only entry: nothing (it only adjusts repeat modes / adds identity mappings at the end)
+spec fn pairs_of(table: Map<String, Vec<&AliasMapping>>, fm: f::Mapping, pairs: Seq<(Seq<KeyCode>, Seq<KeyCode>)>) -> bool {
+  match fm {
+    f::Mapping::Alias(a) => pairs == (if a.from.keys@.len() == 1 && is_modifier_spec(a.from.keys@[0]) { Seq::empty() } else { seq![(a.from.keys@, a.to.initial@)] }),
+    f::Mapping::Single(sg) => exists|it: AliasCombinationIterable| it.built(table, sg.from.modifiers@) && pairs == single_pairs(it, all_combos(it.q()), sg),
+    f::Mapping::Row(rm) => match crate::physical_keyboard_layouts::ukl_row(rm.from.row) {
+      Some(row) => exists|it: AliasCombinationIterable| it.built(table, rm.from.modifiers@) && pairs == row_pairs(it, all_combos(it.q()), rm, row),
+      None => pairs.len() == 0 },
+    f::Mapping::RepeatOnlySingle(_) => pairs.len() == 0,
+  }
+}
+/// C13: the converted layout is, in source order, the pairs of each source mapping, followed only by identity mappings (added by repeat-only entries)
+spec fn shape_w(f: f::Layout, l: s::Layout, table: Map<String, Vec<&AliasMapping>>, chunks: Seq<Seq<(Seq<KeyCode>, Seq<KeyCode>)>>, n: int) -> bool {
+  chunks.len() == f.mappings@.len() && (forall|i: int| 0 <= i < chunks.len() ==> pairs_of(table, f.mappings@[i], #[trigger] chunks[i]))
+  && 0 <= n <= l.mappings@.len() && fts(l.mappings@).take(n) == flat(chunks)
+  && forall|j: int| n <= j < l.mappings@.len() ==> (#[trigger] l.mappings@[j]).from@ == l.mappings@[j].to@
+}
+pub closed spec fn convert_shape(f: f::Layout, l: s::Layout) -> bool {
+  exists|table: Map<String, Vec<&AliasMapping>>, chunks: Seq<Seq<(Seq<KeyCode>, Seq<KeyCode>)>>, n: int| #[trigger] shape_w(f, l, table, chunks, n)
+}
+proof fn lemma_fts_take(ms: Seq<s::Mapping>, n: int)
+  requires 0 <= n <= ms.len()
+  ensures fts(ms).take(n) == fts(ms.take(n))
+{ assert(fts(ms).take(n) =~= fts(ms.take(n))); }
+
+//@ C13 C14 | default: fn convert
 #[verifier::exec_allows_no_decreases_clause]
 pub fn convert(f: &f::Layout) -> (r: Result<s::Layout, String>)
   ensures
     //@ C14 | every layout the converter accepts satisfies the precondition of Mapper::for_layout (so installing and driving it cannot panic)
     r is Ok ==> crate::keys::layout_ok(r.unwrap()),
+    //@ C13 | source order: the result is the expansion of each source mapping in source order, followed only by identity mappings added for repeat-only entries
+    r is Ok ==> convert_shape(*f, r.unwrap()),
 { //@ | body
   proof { axiom_fromset_key_model(); axiom_string_key_model(); assert(vstd::std_specs::hash::builds_valid_hashers::<std::collections::hash_map::RandomState>()); }
   broadcast use vstd::std_specs::hash::group_hash_axioms;
@@ -26,16 +61,33 @@ pub fn convert(f: &f::Layout) -> (r: Result<s::Layout, String>)
   let mut from_table: HashMap<FromSet, Vec<usize>> = HashMap::new();
   
   let alias_mappings = find_alias_mappings(f);
+  //@ C13 | the expansions of the source mappings handled so far
+  let ghost mut chunks: Seq<Seq<(Seq<KeyCode>, Seq<KeyCode>)>> = Seq::empty(); let ghost table = alias_mappings@;
+  proof { assert(fts(res@) =~= Seq::empty()); }
   
-  for fm in &f.mappings
+  for fm in itf: &f.mappings
     invariant alias_table_ok(alias_mappings@), table_ok(from_table@, res@.len() as int),
       vstd::std_specs::hash::obeys_key_model::<FromSet>(), vstd::std_specs::hash::builds_valid_hashers::<std::collections::hash_map::RandomState>(),
+      //@ C13 | the result so far is the expansion of the source mappings handled so far, in source order
+      table == alias_mappings@, itf.seq().len() == f.mappings@.len(), forall|j: int| 0 <= j < f.mappings@.len() ==> *itf.seq()[j] == f.mappings@[j],
+      chunks.len() == itf.index@, forall|i: int| 0 <= i < chunks.len() ==> pairs_of(table, f.mappings@[i], #[trigger] chunks[i]),
+      fts(res@) == flat(chunks),
   {
+    //@ C13 | the source mapping of this iteration
+    proof { assert(*fm == f.mappings@[itf.index@ as int]); }
     let sms = convert_mapping(&alias_mappings, fm)?;
-    for sm in sms
+    //@ C13 | its expansion
+    let ghost smsv = sms@; let ghost ft0 = fts(res@);
+    proof { assert(smsv.take(0) =~= Seq::empty()); assert(fts(smsv.take(0)) =~= Seq::empty()); assert(ft0 + fts(smsv.take(0)) =~= ft0); }
+    for sm in its: sms
       invariant alias_table_ok(alias_mappings@), table_ok(from_table@, res@.len() as int),
         vstd::std_specs::hash::obeys_key_model::<FromSet>(), vstd::std_specs::hash::builds_valid_hashers::<std::collections::hash_map::RandomState>(),
+        //@ C13 | the mappings of this expansion are appended one by one, in order
+        its.seq() == smsv, fts(res@) == ft0 + fts(smsv.take(its.index@ as int)),
     {
+      //@ C13 | the mapping of this iteration
+      let ghost smg = sm; let ghost res0 = res@; let ghost k = its.index@ as int;
+      proof { assert(sm == smsv[k]); }
       let ghost t0 = from_table@; let ghost n0 = res@.len() as int; let ghost mut vfin: Option<Vec<usize>> = None;
       let from_set = FromSet::new(&sm.from);
       match from_table.get_mut(&from_set) {
@@ -52,13 +104,28 @@ pub fn convert(f: &f::Layout) -> (r: Result<s::Layout, String>)
         }
       }
       res.push(sm);
+      //@ C13 | appended
+      proof { lemma_fts_push(res0, smg); assert(res@ == res0.push(smg)); assert(smsv.take(k + 1) =~= smsv.take(k).push(smg)); lemma_fts_push(smsv.take(k), smg);
+        assert(ft0 + fts(smsv.take(k)).push((smg.from@, smg.to@)) =~= (ft0 + fts(smsv.take(k))).push((smg.from@, smg.to@))); }
     }
+    //@ C13 | this source mapping is done
+    proof { assert(smsv.take(smsv.len() as int) =~= smsv); let c2 = chunks.push(fts(smsv)); assert(c2.drop_last() =~= chunks); assert(c2.last() == fts(smsv));
+      assert forall|i: int| 0 <= i < c2.len() implies pairs_of(table, f.mappings@[i], #[trigger] c2[i]) by { if i < chunks.len() { assert(c2[i] == chunks[i]); } }
+      chunks = c2; }
   }
+  //@ C13 | all source mappings expanded; from here on triggers and outputs of these mappings do not change, only identity mappings are appended
+  let ghost n_main = res@.len() as int; let ghost ft_main = fts(res@);
+  proof { assert(fts(res@).take(n_main) =~= ft_main); }
   
   for fm in &f.mappings
     invariant alias_table_ok(alias_mappings@), table_ok(from_table@, res@.len() as int),
+      //@ C13 | repeat-only entries leave triggers and outputs alone and append identity mappings only
+      0 <= n_main <= res@.len(), fts(res@).take(n_main) == ft_main, forall|j: int| n_main <= j < res@.len() ==> (#[trigger] res@[j]).from@ == res@[j].to@,
   {
+    //@ C13 | frame of one repeat-only pass
+    let ghost r0 = res@;
     adjust_repeats(&mut res, &from_table, &alias_mappings, fm)?;
+    proof { lemma_frame_take(r0, res@, n_main); lemma_frame_id(r0, res@, n_main); }
   }
   
   for sm in it: &res
@@ -68,13 +135,36 @@ pub fn convert(f: &f::Layout) -> (r: Result<s::Layout, String>)
   {
     check_mapping_is_usable(sm)?;
   }
+  //@ C13 | the shape of the result
+  proof { assert forall|l: s::Layout| l.mappings@ == res@ implies #[trigger] convert_shape(*f, l) by { assert(chunks.len() == f.mappings@.len()); assert(fts(l.mappings@).take(n_main) == flat(chunks)); assert(shape_w(*f, l, table, chunks, n_main)); } }
   
   Ok(s::Layout {
     mappings: res
   })
 }
 
-//@ C14 | default: fn adjust_repeats
+/// C13: triggers and outputs of the mappings present before are unchanged; every mapping appended is an identity mapping (output = trigger)
+spec fn ar_frame(o: Seq<s::Mapping>, n: Seq<s::Mapping>) -> bool {
+  n.len() >= o.len() && (forall|j: int| 0 <= j < o.len() ==> (#[trigger] n[j]).from@ == o[j].from@ && n[j].to@ == o[j].to@) && (forall|j: int| o.len() <= j < n.len() ==> (#[trigger] n[j]).from@ == n[j].to@)
+}
+proof fn lemma_frame_take(o: Seq<s::Mapping>, n: Seq<s::Mapping>, k: int)
+  requires
+    //@ C13 | frame of a repeat-only pass
+    ar_frame(o, n), 0 <= k <= o.len()
+  ensures fts(n).take(k) == fts(o).take(k)
+{
+  assert forall|j: int| 0 <= j < k implies fts(n).take(k)[j] == fts(o).take(k)[j] by { assert(n[j].from@ == o[j].from@ && n[j].to@ == o[j].to@); }
+  assert(fts(n).take(k) =~= fts(o).take(k));
+}
+proof fn lemma_frame_id(o: Seq<s::Mapping>, n: Seq<s::Mapping>, k: int)
+  requires
+    //@ C13 | frame of a repeat-only pass
+    ar_frame(o, n), 0 <= k <= o.len(), forall|j: int| k <= j < o.len() ==> (#[trigger] o[j]).from@ == o[j].to@
+  ensures forall|j: int| k <= j < n.len() ==> (#[trigger] n[j]).from@ == n[j].to@
+{
+  assert forall|j: int| k <= j < n.len() implies (#[trigger] n[j]).from@ == n[j].to@ by { if j < o.len() { assert(o[j].from@ == o[j].to@); assert(n[j].from@ == o[j].from@ && n[j].to@ == o[j].to@); } }
+}
+//@ C13 C14 | default: fn adjust_repeats
 #[verifier::exec_allows_no_decreases_clause]
 fn adjust_repeats<'a>(res: &mut Vec<s::Mapping>, from_table: &HashMap<FromSet, Vec<usize>>, alias_mappings: &'a HashMap<String, Vec<&'a f::AliasMapping>>, fm: &f::Mapping) -> (r: Result<(), String>)
   requires
@@ -84,6 +174,8 @@ fn adjust_repeats<'a>(res: &mut Vec<s::Mapping>, from_table: &HashMap<FromSet, V
   ensures
     //@ C14 | data-structure invariants that keep every index in bounds (panic-freedom of the converter)
     final(res)@.len() >= old(res)@.len(),
+    //@ C13 | a repeat-only entry changes only repeat modes of existing mappings and appends identity mappings
+    ar_frame(old(res)@, final(res)@),
   { //@ | body
   proof { axiom_fromset_key_model(); assert(vstd::std_specs::hash::builds_valid_hashers::<std::collections::hash_map::RandomState>()); }
   broadcast use vstd::std_specs::hash::group_hash_axioms;
@@ -96,6 +188,9 @@ fn adjust_repeats<'a>(res: &mut Vec<s::Mapping>, from_table: &HashMap<FromSet, V
           //@ C14 | data-structure invariants that keep every index in bounds (panic-freedom of the converter)
           __it.wf(),
           res@.len() >= old(res)@.len(),
+          //@ C13 | frame so far
+          ar_frame(old(res)@, res@),
+          //@ C14 | data-structure invariants that keep every index in bounds (panic-freedom of the converter)
           table_ok(from_table@, old(res)@.len() as int),
           vstd::std_specs::hash::obeys_key_model::<FromSet>(),
           vstd::std_specs::hash::builds_valid_hashers::<std::collections::hash_map::RandomState>(),
@@ -120,6 +215,9 @@ fn adjust_repeats<'a>(res: &mut Vec<s::Mapping>, from_table: &HashMap<FromSet, V
             invariant
               //@ C14 | data-structure invariants that keep every index in bounds (panic-freedom of the converter)
               res@.len() >= old(res)@.len(),
+              //@ C13 | frame so far
+              ar_frame(old(res)@, res@),
+              //@ C14 | data-structure invariants that keep every index in bounds (panic-freedom of the converter)
               it2.seq().len() == is@.len(),
               forall|j: int| 0 <= j < is@.len() ==> *it2.seq()[j] == is@[j],
               forall|j: int| 0 <= j < is@.len() ==> (#[trigger] is@[j]) < old(res)@.len(),
@@ -159,11 +257,14 @@ impl FromSet {
   }
 }
 
-//@ C14 | default: fn convert_mapping
-fn convert_mapping<'a>(alias_mappings: &HashMap<String, Vec<&'a f::AliasMapping>>, m: &f::Mapping) -> Result<Vec<s::Mapping>, String>
+//@ C13 C14 | default: fn convert_mapping
+fn convert_mapping<'a>(alias_mappings: &HashMap<String, Vec<&'a f::AliasMapping>>, m: &f::Mapping) -> (r: Result<Vec<s::Mapping>, String>)
   requires
     //@ C14 | data-structure invariants that keep every index in bounds (panic-freedom of the converter)
     alias_table_ok(alias_mappings@),
+  ensures
+    //@ C13 | each kind of source mapping converts to the pairs it stands for
+    match r { Ok(v) => pairs_of(alias_mappings@, *m, fts(v@)), Err(_) => true },
   { //@ | body
   match m {
     f::Mapping::Alias(alias) => Ok(convert_alias(alias)),
@@ -173,8 +274,12 @@ fn convert_mapping<'a>(alias_mappings: &HashMap<String, Vec<&'a f::AliasMapping>
   }
 }
 
-//@ C14 | default: fn convert_alias
-fn convert_alias(alias: &f::AliasMapping) -> Vec<s::Mapping> {
+//@ C13 C14 | default: fn convert_alias
+fn convert_alias(alias: &f::AliasMapping) -> (r: Vec<s::Mapping>)
+  ensures
+    //@ C13 | an alias definition is itself a mapping from its keys to its extra output keys, unless it is a lone modifier
+    fts(r@) == (if alias.from.keys@.len() == 1 && is_modifier_spec(alias.from.keys@[0]) { Seq::<(Seq<KeyCode>, Seq<KeyCode>)>::empty() } else { seq![(alias.from.keys@, alias.to.initial@)] }),
+  { //@ | body
   // This test tries to be clever about whethere the user
   // expects modifiers to pass-through.
   if !is_just_one_modifier(&alias.from.keys) {
@@ -190,26 +295,57 @@ fn convert_alias(alias: &f::AliasMapping) -> Vec<s::Mapping> {
   }
 }
 
-//@ C14 | default: fn convert_single
+/// C13, statement level: the (trigger, output) pairs a single mapping with alias modifiers stands for: one per combination, in combination order;
+/// trigger = the combination's modifier keys + the trigger key, output = the output modifiers with aliases replaced + the output key
+spec fn single_pairs(it: AliasCombinationIterable, tuples: Seq<Seq<usize>>, single: f::SingleMapping) -> Seq<(Seq<KeyCode>, Seq<KeyCode>)>
+  decreases tuples.len()
+{
+  if tuples.len() == 0 { Seq::empty() } else {
+    let t = tuples.last();
+    single_pairs(it, tuples.drop_last(), single).push((from_mods_spec(it, t, it.modifiers@.len() as int).push(single.from.key),
+      match translate_spec(it, t, single.to) { Some(v) => v, None => Seq::empty() }))
+  }
+}
+
+//@ C13 C14 | default: fn convert_single
 #[verifier::exec_allows_no_decreases_clause]
-fn convert_single<'a>(alias_mappings: &'a HashMap<String, Vec<&'a f::AliasMapping>>, single: &f::SingleMapping) -> Result<Vec<s::Mapping>, String>
+fn convert_single<'a>(alias_mappings: &'a HashMap<String, Vec<&'a f::AliasMapping>>, single: &f::SingleMapping) -> (r: Result<Vec<s::Mapping>, String>)
   requires
     //@ C14 | data-structure invariants that keep every index in bounds (panic-freedom of the converter)
     alias_table_ok(alias_mappings@),
+  ensures
+    //@ C13 | a single mapping with alias modifiers converts to exactly one mapping per combination of alias definitions (every combination once, in counting order), with the trigger and output the statement prescribes
+    match r { Ok(v) => exists|it: AliasCombinationIterable| it.built(alias_mappings@, single.from.modifiers@) && fts(v@) == single_pairs(it, all_combos(it.q()), *single), Err(_) => true },
   { //@ | body
   let mut res = Vec::new();
   let modifier_combinations = build_combinations(alias_mappings, &single.from.modifiers)?;
   let mut __it = iterate_combinations(&modifier_combinations);
+  //@ C13 | combinations handled so far
+  let ghost mut seen: Seq<Seq<usize>> = Seq::empty(); let ghost mc = modifier_combinations; let ghost all = all_combos(modifier_combinations.q());
+  proof { assert(fts(res@) =~= Seq::empty()); assert(all =~= seen + __it.rem()); }
   loop
     invariant
       //@ C14 | data-structure invariants that keep every index in bounds (panic-freedom of the converter)
       __it.wf(),
+      //@ C13 | the mappings produced so far are those of the combinations handled so far, in order; handled + remaining = all
+      __it.itv() == mc, mc == modifier_combinations, all == seen + __it.rem(), all == all_combos(mc.q()), mc.built(alias_mappings@, single.from.modifiers@),
+      fts(res@) == single_pairs(mc, seen, *single),
+    ensures
+      //@ C13 | every combination has been handled
+      seen == all,
     { //@ | body
-    match __it.next() { None => { break; }, Some(modifier_combination) => {
+    //@ C13 | bookkeeping of the enumeration
+    let ghost rem0 = __it.rem();
+    match __it.next() { None => { proof { assert(rem0 =~= Seq::empty()); assert(__it.rem() =~= Seq::empty()); assert(seen + rem0 =~= seen); } break; }, Some(modifier_combination) => {
+    //@ C13 | the combination of this iteration
+    let ghost t = modifier_combination.tv(); let ghost res0 = res@;
+    proof { assert(rem0 == seq![t] + __it.rem()); assert(seen.push(t) + __it.rem() =~= seen + rem0); }
     let mut from = modifier_combination.from_modifiers().clone();
     from.push(single.from.key.clone());
 
     let to = modifier_combination.translate_single_to_keys(&single.to)?;
+    //@ C13 | trigger and output of the mapping of this combination
+    let ghost fg = from@; let ghost tg = to@;
 
     let repeat = match &single.repeat {
       f::SingleRepeat::Normal => s::Repeat::Normal,
@@ -229,6 +365,9 @@ fn convert_single<'a>(alias_mappings: &'a HashMap<String, Vec<&'a f::AliasMappin
       repeat,
       absorbing
     });
+    //@ C13 | one more combination handled
+    proof { lemma_fts_push(res0, res@.last()); assert(res@ == res0.push(res@.last()));
+      let s2 = seen.push(t); assert(s2.drop_last() =~= seen); assert(s2.last() == t); seen = s2; }
       } }
   }
   Ok(res)
@@ -245,25 +384,74 @@ enum RowRepeatTemplate {
   }
 }
 
-//@ C14 | default: fn convert_row
+/// C13, statement level: the (trigger, output) pairs a row shorthand stands for, for ONE combination of alias definitions whose trigger-side modifier
+/// keys are fm and whose output-side modifier keys are tm: one pair per non-space letter among the first n letters, in letter order; the trigger is fm
+/// followed by the key in the letter's column of the physical row, the output is row_to_spec of the letter
+pub open spec fn row_chunk(fm: Seq<KeyCode>, tm: Seq<KeyCode>, row: Seq<KeyCode>, letters: Seq<char>, n: int) -> Seq<(Seq<KeyCode>, Seq<KeyCode>)>
+  decreases n
+{
+  if n <= 0 { Seq::empty() } else {
+    let prev = row_chunk(fm, tm, row, letters, n - 1);
+    if letters[n - 1] == ' ' { prev } else { match row_to_spec(fm.contains(KeyCode::RIGHTSHIFT), tm, letters[n - 1]) { Some(to) => prev.push((fm.push(row[n - 1]), to)), None => prev } }
+  }
+}
+/// ... and for the combinations `tuples` of the iterable, in combination order: fm / tm are the trigger-side / output-side modifier keys of each combination
+spec fn row_pairs(it: AliasCombinationIterable, tuples: Seq<Seq<usize>>, rm: f::RowMapping, row: Seq<KeyCode>) -> Seq<(Seq<KeyCode>, Seq<KeyCode>)>
+  decreases tuples.len()
+{
+  if tuples.len() == 0 { Seq::empty() } else {
+    let t = tuples.last();
+    row_pairs(it, tuples.drop_last(), rm, row)
+      + row_chunk(from_mods_spec(it, t, it.modifiers@.len() as int), match reify_spec(it, t, rm.to.initial@, rm.to.initial@.len() as int) { Some(v) => v, None => Seq::empty() },
+                  row, rm.to.terminal@, rm.to.terminal@.len() as int)
+  }
+}
+/// the (trigger, output) pairs of a list of basic mappings
+pub open spec fn fts(ms: Seq<s::Mapping>) -> Seq<(Seq<KeyCode>, Seq<KeyCode>)> { ms.map_values(|m: s::Mapping| (m.from@, m.to@)) }
+proof fn lemma_fts_push(ms: Seq<s::Mapping>, m: s::Mapping)
+  ensures fts(ms.push(m)) == fts(ms).push((m.from@, m.to@))
+{ assert(fts(ms.push(m)) =~= fts(ms).push((m.from@, m.to@))); }
+
+//@ C13 C14 | default: fn convert_row
 #[verifier::exec_allows_no_decreases_clause]
-fn convert_row<'t>(alias_mappings: &'t HashMap<String, Vec<&'t f::AliasMapping>>, row_mapping: &f::RowMapping) -> Result<Vec<s::Mapping>, String>
+fn convert_row<'t>(alias_mappings: &'t HashMap<String, Vec<&'t f::AliasMapping>>, row_mapping: &f::RowMapping) -> (r: Result<Vec<s::Mapping>, String>)
   requires
     //@ C14 | data-structure invariants that keep every index in bounds (panic-freedom of the converter)
     alias_table_ok(alias_mappings@),
+  ensures
+    //@ C13 | a row shorthand converts to exactly: for each combination of alias definitions in turn, one mapping per non-space letter in letter order, with trigger = the combination's modifier keys + the key in the letter's column of the row, output = the output modifiers + the Shift the character needs (right Shift iff the trigger has right Shift) + the key of the character
+    match r { Ok(v) => (match crate::physical_keyboard_layouts::ukl_row(row_mapping.from.row) {
+        Some(row) => exists|it: AliasCombinationIterable| it.built(alias_mappings@, row_mapping.from.modifiers@) && fts(v@) == row_pairs(it, all_combos(it.q()), *row_mapping, row),
+        None => v@.len() == 0 }), Err(_) => true },
   { //@ | body
   proof { axiom_fmt_user_types(); }
   broadcast use vstd::std_specs::fmt::group_fmt_axioms;
   let mut res = Vec::new();
   let modifier_combinations = build_combinations(alias_mappings, &row_mapping.from.modifiers)?;
   let mut __it = iterate_combinations(&modifier_combinations);
+  //@ C13 | combinations handled so far
+  let ghost mut seen: Seq<Seq<usize>> = Seq::empty(); let ghost mc = modifier_combinations; let ghost all = all_combos(modifier_combinations.q());
+  let ghost rowo = crate::physical_keyboard_layouts::ukl_row(row_mapping.from.row); let ghost letters = row_mapping.to.terminal@;
+  proof { assert(fts(res@) =~= Seq::empty()); assert(all =~= seen + __it.rem()); }
   loop
     invariant
       //@ C14 | data-structure invariants that keep every index in bounds (panic-freedom of the converter)
       __it.wf(),
       vstd::std_specs::fmt::fmt_req_all::<f::Row>(),
+      //@ C13 | the mappings produced so far are those of the combinations handled so far, in order; handled + remaining = all
+      rowo == crate::physical_keyboard_layouts::ukl_row(row_mapping.from.row), letters == row_mapping.to.terminal@,
+      __it.itv() == mc, mc == modifier_combinations, all == seen + __it.rem(), all == all_combos(mc.q()), mc.built(alias_mappings@, row_mapping.from.modifiers@),
+      match rowo { Some(row) => fts(res@) == row_pairs(mc, seen, *row_mapping, row), None => res@.len() == 0 },
+    ensures
+      //@ C13 | every combination has been handled
+      seen == all,
     { //@ | body
-    match __it.next() { None => { break; }, Some(modifier_combination) => {
+    //@ C13 | bookkeeping of the enumeration
+    let ghost rem0 = __it.rem();
+    match __it.next() { None => { proof { assert(rem0 =~= Seq::empty()); assert(__it.rem() =~= Seq::empty()); assert(seen + rem0 =~= seen); } break; }, Some(modifier_combination) => {
+    //@ C13 | the combination of this iteration
+    let ghost t = modifier_combination.tv();
+    proof { assert(rem0 == seq![t] + __it.rem()); assert(seen.push(t) + __it.rem() =~= seen + rem0); }
     let from_modifiers = modifier_combination.from_modifiers().clone();
     let to_modifiers = modifier_combination.reify_modifiers(&row_mapping.to.initial)?;
     
@@ -297,18 +485,26 @@ fn convert_row<'t>(alias_mappings: &'t HashMap<String, Vec<&'t f::AliasMapping>>
       
     let has_right_shift = find_right_shift(&from_modifiers);
     let to_terminals: Vec<char> = row_mapping.to.terminal.chars().collect();
+    //@ C13 | this combination: its trigger-side and output-side modifier keys, the physical row, the letters
+    let ghost ft0 = fts(res@); let ghost row = (**from_physical_row)@; let ghost fm = from_modifiers@; let ghost tm = to_modifiers@;
+    proof { assert(rowo == Some(row)); assert(to_terminals@ == letters); }
     
     for char_i in 0..to_terminals.len()
       invariant
         //@ C14 | data-structure invariants that keep every index in bounds (panic-freedom of the converter)
         modifier_combination.wf(),
         vstd::std_specs::fmt::fmt_req_all::<f::Row>(),
+        //@ C13 | one mapping per non-space letter handled so far, in letter order, with the trigger and output the statement prescribes
+        fts(res@) == ft0 + row_chunk(fm, tm, row, letters, char_i as int),
+        row == (**from_physical_row)@, fm == from_modifiers@, tm == to_modifiers@, to_terminals@ == letters, has_right_shift == fm.contains(KeyCode::RIGHTSHIFT),
       { //@ | body
       if char_i >= from_physical_row.len() {
         return Err(format!("Don't know which keycode is at index {} in row {:?}", char_i, row_mapping.from.row));
       }
       
       let to = convert_row_to(has_right_shift, &to_modifiers, &to_terminals, char_i)?;
+      //@ C13 | a space produces no mapping
+      proof { if to is None { assert(row_chunk(fm, tm, row, letters, char_i as int + 1) == row_chunk(fm, tm, row, letters, char_i as int)); } }
       if let Some(to) = to {
         let mut from = from_modifiers.clone();
         from.push(from_physical_row[char_i]);
@@ -326,22 +522,38 @@ fn convert_row<'t>(alias_mappings: &'t HashMap<String, Vec<&'t f::AliasMapping>>
 
         let absorbing = modifier_combination.reify_modifiers(&row_mapping.absorbing)?;
 
+        //@ C13 | the mapping of this letter
+        let ghost res0 = res@; let ghost fg = from@; let ghost tg = to@;
         res.push(s::Mapping {
           from,
           to,
           repeat,
           absorbing
         });
+        proof { lemma_fts_push(res0, res@.last()); assert(res@ == res0.push(res@.last()));
+          assert(row_chunk(fm, tm, row, letters, char_i as int + 1) == row_chunk(fm, tm, row, letters, char_i as int).push((fg, tg)));
+          assert(ft0 + row_chunk(fm, tm, row, letters, char_i as int).push((fg, tg)) =~= (ft0 + row_chunk(fm, tm, row, letters, char_i as int)).push((fg, tg))); }
       }
     }
+    //@ C13 | this combination is done
+    proof { let s2 = seen.push(t); assert(s2.drop_last() =~= seen); assert(s2.last() == t); seen = s2; }
       } }
   }
   Ok(res)
 }
 
-//@ C14 | default: fn find_right_shift
-fn find_right_shift(from: &Vec<KeyCode>) -> bool {
-  for k in from {
+//@ C13 C14 | default: fn find_right_shift
+fn find_right_shift(from: &Vec<KeyCode>) -> (r: bool)
+  ensures
+    //@ C13 | right-Shift rule: true iff the trigger contains right Shift
+    r == from@.contains(KeyCode::RIGHTSHIFT),
+  { //@ | body
+  for k in it: from
+    invariant
+      //@ C13 | right-Shift rule: no right Shift among the keys scanned so far
+      it.seq().len() == from@.len(), forall|j: int| 0 <= j < from@.len() ==> *it.seq()[j] == from@[j],
+      forall|j: int| 0 <= j < it.index@ ==> from@[j] != KeyCode::RIGHTSHIFT,
+    { //@ | body
     if *k == KeyCode::RIGHTSHIFT {
       return true;
     }
@@ -349,8 +561,23 @@ fn find_right_shift(from: &Vec<KeyCode>) -> bool {
   return false;
 }
 
-//@ C14 | default: fn convert_row_to
-fn convert_row_to(has_right_shift: bool, modifiers: &Vec<KeyCode>, terminals: &Vec<char>, char_i: usize) -> Result<Option<Vec<KeyCode>>, String> {
+/// C13, statement level: the keys that type character ch after the output modifiers `mods`: the Shift a US-QWERTY keyboard needs for it
+/// (right Shift if the trigger contains right Shift), then the key; None if the table has no entry for ch
+pub open spec fn shift_key(has_right_shift: bool) -> KeyCode { if has_right_shift { KeyCode::RIGHTSHIFT } else { KeyCode::LEFTSHIFT } }
+pub open spec fn row_to_spec(has_right_shift: bool, mods: Seq<KeyCode>, ch: char) -> Option<Seq<KeyCode>> {
+  match crate::char_production_map::cam_entry(ch) { None => None, Some((sh, k)) => Some(if sh { mods.push(shift_key(has_right_shift)).push(k) } else { mods.push(k) }) }
+}
+
+//@ C13 C14 | default: fn convert_row_to
+fn convert_row_to(has_right_shift: bool, modifiers: &Vec<KeyCode>, terminals: &Vec<char>, char_i: usize) -> (r: Result<Option<Vec<KeyCode>>, String>)
+  ensures
+    //@ C13 | per-letter rule: nothing for a missing letter or a space; otherwise the output modifiers, the Shift the character needs (right Shift iff the trigger has right Shift), the key of the character; an error iff the table has no entry
+    match r {
+      Ok(None) => char_i >= terminals@.len() || terminals@[char_i as int] == ' ',
+      Ok(Some(to)) => char_i < terminals@.len() && terminals@[char_i as int] != ' ' && row_to_spec(has_right_shift, modifiers@, terminals@[char_i as int]) == Some(to@),
+      Err(_) => char_i < terminals@.len() && terminals@[char_i as int] != ' ' && row_to_spec(has_right_shift, modifiers@, terminals@[char_i as int]) is None,
+    },
+  { //@ | body
   use crate::char_production_map::CHAR_ACCESS_MAP;
   if char_i >= terminals.len() {
     Ok(None)
@@ -379,8 +606,12 @@ fn convert_row_to(has_right_shift: bool, modifiers: &Vec<KeyCode>, terminals: &V
   }
 }
 
-//@ C14 | default: fn is_just_one_modifier
-fn is_just_one_modifier(ks: &Vec<KeyCode>) -> bool {
+//@ C13 C14 | default: fn is_just_one_modifier
+fn is_just_one_modifier(ks: &Vec<KeyCode>) -> (r: bool)
+  ensures
+    //@ C13 | exact test: a one-element list holding a modifier
+    r == (ks@.len() == 1 && is_modifier_spec(ks@[0])),
+  { //@ | body
   if ks.len() == 1 {
     is_modifier(&ks[0])
   }
@@ -389,8 +620,12 @@ fn is_just_one_modifier(ks: &Vec<KeyCode>) -> bool {
   }
 }
 
-//@ C14 | default: fn is_modifier
-fn is_modifier(k: &KeyCode) -> bool {
+//@ C13 C14 | default: fn is_modifier
+fn is_modifier(k: &KeyCode) -> (r: bool)
+  ensures
+    //@ C13 | exact test: one of the eight modifier keys
+    r == is_modifier_spec(*k),
+  { //@ | body
   use crate::key_codes::KeyCode::*;
   match k {
     LEFTSHIFT => true,
@@ -440,6 +675,24 @@ impl <'t> AliasCombinationIterable<'t> {
     &&& forall|name: String| #[trigger] self.alias_map@.contains_key(name) ==> self.alias_map@[name] < self.alias_quantities@.len()
   }
   pub closed spec fn q(&self) -> Seq<usize> { self.alias_quantities@ }
+  /// C13: how the iterable relates to the alias table and the trigger-side modifiers it was built from: same modifiers; the alias with ordinal j
+  /// (the j-th alias modifier of the trigger) has the definitions the table lists for its name, in table order; a name maps to the ordinal of its
+  /// LAST occurrence on the trigger side
+  spec fn built(&self, table: Map<String, Vec<&'t AliasMapping>>, mods: Seq<f::Modifier>) -> bool {
+    &&& self.modifiers@ == mods
+    &&& forall|i: int| 0 <= i < mods.len() ==> occ_ok(*self, table, mods, i)
+    &&& forall|name: String| #[trigger] self.alias_map@.contains_key(name) ==> exists|i: int| #[trigger] last_occ(mods, mods.len() as int, name, i) && self.alias_map@[name] == n_alias(mods, i)
+  }
+}
+spec fn occ_ok<'t>(it: AliasCombinationIterable<'t>, table: Map<String, Vec<&'t AliasMapping>>, mods: Seq<f::Modifier>, i: int) -> bool {
+  match mods[i] {
+    f::Modifier::Alias(a) => table.contains_key(a) && n_alias(mods, i) < it.alias_found_mappings@.len() && *it.alias_found_mappings@[n_alias(mods, i)] == table[a] && it.alias_map@.contains_key(a),
+    f::Modifier::Key(_) => true,
+  }
+}
+/// i is the last position below n at which the alias `name` occurs among the modifiers
+spec fn last_occ(mods: Seq<f::Modifier>, n: int, name: String, i: int) -> bool {
+  0 <= i < n && i < mods.len() && mods[i] == f::Modifier::Alias(name) && forall|i2: int| i < i2 < n && i2 < mods.len() ==> #[trigger] mods[i2] != f::Modifier::Alias(name)
 }
 struct AliasCombinationIterator<'s, 't> {
   iterable: &'s AliasCombinationIterable<'t>,
@@ -459,7 +712,18 @@ pub open spec fn smap(m: &HashMap<String, usize>) -> Map<String, usize> { m@ }
 //@ C14 | default: fn alias_table_ok
 pub open spec fn alias_table_ok(t: Map<String, Vec<&AliasMapping>>) -> bool { forall|name: String| #[trigger] t.contains_key(name) ==> t[name]@.len() >= 1 }
 
-//@ C14 | default: fn build_combinations
+spec fn occ_part_v<'a>(afm: Seq<&'a Vec<&'a AliasMapping>>, amap: Map<String, usize>, table: Map<String, Vec<&'a AliasMapping>>, mods: Seq<f::Modifier>, i: int) -> bool {
+  match mods[i] {
+    f::Modifier::Alias(a) => table.contains_key(a) && n_alias(mods, i) < afm.len() && *afm[n_alias(mods, i)] == table[a] && amap.contains_key(a),
+    f::Modifier::Key(_) => true,
+  }
+}
+spec fn occ_part<'a>(v: &Vec<&'a Vec<&'a AliasMapping>>, amap: Map<String, usize>, table: Map<String, Vec<&'a AliasMapping>>, mods: Seq<f::Modifier>, i: int) -> bool { occ_part_v(v@, amap, table, mods, i) }
+proof fn lemma_n_alias_step(mods: Seq<f::Modifier>, i: int)
+  requires 0 <= i < mods.len()
+  ensures n_alias(mods, i + 1) == n_alias(mods, i) + (if mods[i] is Alias { 1int } else { 0int })
+{}
+//@ C13 C14 | default: fn build_combinations
 fn build_combinations<'t>(alias_mappings: &'t HashMap<String, Vec<&'t AliasMapping>>, modifiers: &'t Vec<f::Modifier>) -> (r: Result<AliasCombinationIterable<'t>, String>)
   requires
     //@ C14 | data-structure invariants that keep every index in bounds (panic-freedom of the converter)
@@ -467,12 +731,16 @@ fn build_combinations<'t>(alias_mappings: &'t HashMap<String, Vec<&'t AliasMappi
   ensures
     //@ C14 | data-structure invariants that keep every index in bounds (panic-freedom of the converter)
     match r { Ok(it) => it.wf(), Err(_) => true },
+    //@ C13 | the iterable holds, for each trigger-side alias in order, the definitions the table lists for it, and maps each alias name to its last trigger-side occurrence
+    match r { Ok(it) => it.built(alias_mappings@, modifiers@), Err(_) => true },
   { //@ | body
   proof { axiom_string_key_model(); assert(vstd::std_specs::hash::builds_valid_hashers::<std::collections::hash_map::RandomState>()); }
   broadcast use vstd::std_specs::hash::group_hash_axioms;
   let mut alias_quantities = Vec::new();
   let mut alias_found_mappings = Vec::new();
   let mut alias_map = HashMap::new();
+  //@ C13 | number of modifiers scanned
+  let ghost mut done: int = 0;
   
   for i in 0..modifiers.len()
     invariant
@@ -483,9 +751,17 @@ fn build_combinations<'t>(alias_mappings: &'t HashMap<String, Vec<&'t AliasMappi
       forall|j: int| 0 <= j < uv(&alias_quantities).len() ==> (#[trigger] uv(&alias_quantities)[j]) == afm_at(&alias_found_mappings, j) && uv(&alias_quantities)[j] >= 1,
       forall|name: String| #[trigger] smap(&alias_map).contains_key(name) ==> smap(&alias_map)[name] < uv(&alias_quantities).len(),
       smap(&alias_map) == alias_map@,
+      //@ C13 | the part of the iterable built so far agrees with the table and the modifiers scanned so far
+      forall|i2: int| 0 <= i2 < i ==> occ_part(&alias_found_mappings, smap(&alias_map), alias_mappings@, modifiers@, i2),
+      done == i as int,
+      forall|name: String| #[trigger] smap(&alias_map).contains_key(name) ==> exists|i2: int| #[trigger] last_occ(modifiers@, done, name, i2) && smap(&alias_map)[name] == n_alias(modifiers@, i2),
     { //@ | body
     proof { axiom_string_key_model(); assert(vstd::std_specs::hash::builds_valid_hashers::<std::collections::hash_map::RandomState>()); }
     let m = &modifiers[i];
+    //@ C13 | bookkeeping for the modifier of this iteration
+    let ghost iq = i as int; let ghost afm0 = alias_found_mappings@; let ghost amap0 = smap(&alias_map);
+    proof { lemma_n_alias_mono(modifiers@, 0, iq);
+      assert forall|i2: int| 0 <= i2 < iq implies occ_part_v(afm0, amap0, alias_mappings@, modifiers@, i2) by { assert(occ_part(&alias_found_mappings, smap(&alias_map), alias_mappings@, modifiers@, i2)); } }
     match m {
       f::Modifier::Alias(alias) => {
         let mappings = alias_mappings.get(alias).ok_or(format!("Alias {} is undefined", alias))?;
@@ -496,12 +772,46 @@ fn build_combinations<'t>(alias_mappings: &'t HashMap<String, Vec<&'t AliasMappi
         proof { assert forall|name: String| am0.contains_key(name) implies am0[name] < i by { assert(smap(&alias_map).contains_key(name)); } }
         alias_map.insert(alias.clone(), i);
         proof { assert forall|name: String| #[trigger] alias_map@.contains_key(name) implies alias_map@[name] < alias_quantities@.len() by { assert(i + 1 == alias_quantities@.len()); if am0.contains_key(name) { assert(am0[name] < i); } } }
+        //@ C13 | the new alias: its definitions are the table's, its name now maps to this (latest) occurrence; earlier occurrences keep their definitions
+        proof {
+          assert(alias_map@ == am0.insert(*alias, i));
+          assert(modifiers@[iq] == f::Modifier::Alias(*alias));
+          assert(i == n_alias(modifiers@, iq));
+          assert forall|i2: int| 0 <= i2 < iq + 1 implies occ_part(&alias_found_mappings, smap(&alias_map), alias_mappings@, modifiers@, i2) by {
+            if i2 < iq { assert(occ_part_v(afm0, amap0, alias_mappings@, modifiers@, i2)); lemma_n_alias_mono(modifiers@, i2, iq); match modifiers@[i2] { f::Modifier::Alias(a) => { lemma_n_alias_step(modifiers@, i2); assert(n_alias(modifiers@, i2) < afm0.len()); assert(alias_found_mappings@[n_alias(modifiers@, i2)] == afm0[n_alias(modifiers@, i2)]); }, _ => {} } }
+            else { assert(alias_found_mappings@[i as int] == mappings); }
+          }
+          assert forall|name: String| #[trigger] smap(&alias_map).contains_key(name) implies exists|i2: int| #[trigger] last_occ(modifiers@, iq + 1, name, i2) && smap(&alias_map)[name] == n_alias(modifiers@, i2) by {
+            if name == *alias { assert(last_occ(modifiers@, iq + 1, name, iq)); }
+            else { let i2 = choose|i2: int| #[trigger] last_occ(modifiers@, iq, name, i2) && amap0[name] == n_alias(modifiers@, i2); assert(last_occ(modifiers@, iq + 1, name, i2)); }
+          }
+        }
       },
-      _ => ()
+      _ => {
+        //@ C13 | a plain key changes nothing in the alias bookkeeping
+        proof {
+          assert forall|name: String| #[trigger] smap(&alias_map).contains_key(name) implies exists|i2: int| #[trigger] last_occ(modifiers@, iq + 1, name, i2) && smap(&alias_map)[name] == n_alias(modifiers@, i2) by {
+            let i2 = choose|i2: int| #[trigger] last_occ(modifiers@, iq, name, i2) && amap0[name] == n_alias(modifiers@, i2); assert(last_occ(modifiers@, iq + 1, name, i2));
+          }
+        }
+        ()
+      }
     }
+    //@ C13 | the name bookkeeping covers the modifiers scanned so far
+    proof { done = iq + 1; }
   }
   
   proof { assert(modifiers@.len() as int == modifiers@.len()); }
+  //@ C13 | the finished iterable
+  let ghost afm_f = alias_found_mappings@; let ghost amap_f = alias_map@;
+  proof { assert forall|i2: int| 0 <= i2 < modifiers@.len() implies occ_part_v(afm_f, amap_f, alias_mappings@, modifiers@, i2) by { assert(occ_part(&alias_found_mappings, smap(&alias_map), alias_mappings@, modifiers@, i2)); }
+    assert forall|it: AliasCombinationIterable<'t>| it.modifiers@ == modifiers@ && it.alias_found_mappings@ == afm_f && it.alias_map@ == amap_f implies #[trigger] it.built(alias_mappings@, modifiers@) by {
+      assert forall|i2: int| 0 <= i2 < modifiers@.len() implies occ_ok(it, alias_mappings@, modifiers@, i2) by { assert(occ_part_v(afm_f, amap_f, alias_mappings@, modifiers@, i2)); }
+      assert forall|name: String| #[trigger] it.alias_map@.contains_key(name) implies exists|i2: int| #[trigger] last_occ(modifiers@, modifiers@.len() as int, name, i2) && it.alias_map@[name] == n_alias(modifiers@, i2) by {
+        assert(smap(&alias_map).contains_key(name));
+        let i2 = choose|i2: int| #[trigger] last_occ(modifiers@, modifiers@.len() as int, name, i2) && amap_f[name] == n_alias(modifiers@, i2);
+      }
+    } }
   Ok(AliasCombinationIterable {
     modifiers,
     alias_quantities: alias_quantities.clone(),
@@ -510,7 +820,7 @@ fn build_combinations<'t>(alias_mappings: &'t HashMap<String, Vec<&'t AliasMappi
   })
 }
   
-//@ C14 | default: fn iterate_combinations
+//@ C13 C14 | default: fn iterate_combinations
 fn iterate_combinations<'s, 't>(iterable: &'s AliasCombinationIterable<'t>) -> (r: AliasCombinationIterator<'s, 't>)
   requires
     //@ C14 | data-structure invariants that keep every index in bounds (panic-freedom of the converter)
@@ -518,6 +828,8 @@ fn iterate_combinations<'s, 't>(iterable: &'s AliasCombinationIterable<'t>) -> (
   ensures
     //@ C14 | data-structure invariants that keep every index in bounds (panic-freedom of the converter)
     r.wf(),
+    //@ C13 | the iterator will produce every combination of definition numbers exactly once, in counting order, for this iterable
+    r.itv() == *iterable, r.rem() == all_combos(iterable.q()),
   { //@ | body
   proof { assert(q_ok(iterable.alias_quantities@)); }
   AliasCombinationIterator { iterable, combinations: multiply(&iterable.alias_quantities) }
@@ -528,14 +840,64 @@ struct AliasCombination<'s, 't> {
   tuple: Vec<usize>
 }
 
-//@ C14 | default: impl AliasCombination<'s, 't>
+// ---- C13: what a combination of alias definitions stands for ----
+/// the keys of definition d of the alias with ordinal j (ordinal = position among the alias modifiers of the trigger)
+spec fn def_keys(it: AliasCombinationIterable, j: int, d: int) -> Seq<KeyCode> { it.alias_found_mappings@[j]@[d].from.keys@ }
+/// the trigger-side modifier keys of the combination `tuple`, for the first n trigger modifiers: a plain key stands for itself,
+/// the alias with ordinal j for the keys of its definition number tuple[j]
+spec fn from_mods_spec(it: AliasCombinationIterable, tuple: Seq<usize>, n: int) -> Seq<KeyCode>
+  decreases n
+{
+  if n <= 0 { Seq::empty() } else {
+    let prev = from_mods_spec(it, tuple, n - 1);
+    match it.modifiers@[n - 1] {
+      f::Modifier::Key(k) => prev.push(k),
+      f::Modifier::Alias(_) => prev + def_keys(it, n_alias(it.modifiers@, n - 1), tuple[n_alias(it.modifiers@, n - 1)] as int),
+    }
+  }
+}
+/// output-side modifiers `mods` (first n of them) under the combination `tuple`: a plain key stands for itself, an alias for the keys of the definition
+/// chosen for that alias on the trigger side; None if an alias does not occur on the trigger side
+spec fn reify_spec(it: AliasCombinationIterable, tuple: Seq<usize>, mods: Seq<f::Modifier>, n: int) -> Option<Seq<KeyCode>>
+  decreases n
+{
+  if n <= 0 { Some(Seq::empty()) } else {
+    match reify_spec(it, tuple, mods, n - 1) {
+      None => None,
+      Some(prev) => match mods[n - 1] {
+        f::Modifier::Key(k) => Some(prev.push(k)),
+        f::Modifier::Alias(a) => if it.alias_map@.contains_key(a) { Some(prev + def_keys(it, it.alias_map@[a] as int, tuple[it.alias_map@[a] as int] as int)) } else { None },
+      },
+    }
+  }
+}
+proof fn lemma_reify_none(it: AliasCombinationIterable, tuple: Seq<usize>, mods: Seq<f::Modifier>, a: int, b: int)
+  requires
+    //@ C13 | once a prefix has no meaning no longer prefix has one
+    reify_spec(it, tuple, mods, a) is None, a <= b
+  ensures reify_spec(it, tuple, mods, b) is None
+  decreases b - a
+{ if a < b { lemma_reify_none(it, tuple, mods, a, b - 1); } }
+spec fn translate_spec(it: AliasCombinationIterable, tuple: Seq<usize>, to: f::SingleToKeys) -> Option<Seq<KeyCode>> {
+  match to.terminal {
+    f::SingleTerminalToKey::Physical(t) => match reify_spec(it, tuple, to.initial@, to.initial@.len() as int) { Some(v) => Some(v.push(t)), None => None },
+    f::SingleTerminalToKey::Null => Some(Seq::empty()),
+  }
+}
+
+//@ C13 C14 | default: impl AliasCombination<'s, 't>
 impl <'s, 't> AliasCombination<'s, 't> {
   pub closed spec fn wf(&self) -> bool { self.it.wf() && valid(self.it.alias_quantities@, self.tuple@) }
+  pub closed spec fn itv(&self) -> AliasCombinationIterable<'t> { *self.it }
+  pub closed spec fn tv(&self) -> Seq<usize> { self.tuple@ }
 
-  fn from_modifiers(&self) -> Vec<KeyCode>
+  fn from_modifiers(&self) -> (r: Vec<KeyCode>)
     requires
       //@ C14 | data-structure invariants that keep every index in bounds (panic-freedom of the converter)
       self.wf(),
+    ensures
+      //@ C13 | the trigger-side modifier keys of this combination: plain keys as written, each alias replaced by the keys of the definition this combination selects for it, in the order written
+      r@ == from_mods_spec(self.itv(), self.tv(), self.itv().modifiers@.len() as int),
     { //@ | body
     let mut thing = Vec::new();
     let mut j = 0;
@@ -545,12 +907,16 @@ impl <'s, 't> AliasCombination<'s, 't> {
         self.wf(),
         //@  | frame / auxiliary
         j == n_alias(self.it.modifiers@, i as int),
+        //@ C13 | keys of the modifiers handled so far
+        thing@ == from_mods_spec(*self.it, self.tuple@, i as int),
       { //@ | body
       proof { lemma_n_alias_mono(self.it.modifiers@, i as int + 1, self.it.modifiers@.len() as int); lemma_n_alias_mono(self.it.modifiers@, 0, i as int); }
       let m = &self.it.modifiers[i];
       match m {
         f::Modifier::Alias(_) => {
           let keys = &self.it.alias_found_mappings[j][self.tuple[j]].from.keys;
+          //@ C13 | ASSUMED contract of Vec::extend: appends the elements of the key list
+          proof { crate::prelude_specs::axiom_ext_items_vec(keys); }
           thing.extend(keys);
           j += 1;
         },
@@ -562,10 +928,13 @@ impl <'s, 't> AliasCombination<'s, 't> {
     thing
   }
   
-  fn translate_single_to_keys(&self, to: &f::SingleToKeys) -> Result<Vec<KeyCode>, String>
+  fn translate_single_to_keys(&self, to: &f::SingleToKeys) -> (r: Result<Vec<KeyCode>, String>)
     requires
       //@ C14 | data-structure invariants that keep every index in bounds (panic-freedom of the converter)
       self.wf(),
+    ensures
+      //@ C13 | output of a single mapping: the output modifiers with aliases replaced by the keys chosen on the trigger side, then the output key; nothing for a null output
+      match r { Ok(v) => translate_spec(self.itv(), self.tv(), *to) == Some(v@), Err(_) => translate_spec(self.itv(), self.tv(), *to) is None },
     { //@ | body
     Ok(match to.terminal {
       f::SingleTerminalToKey::Physical(terminal) => {
@@ -579,29 +948,42 @@ impl <'s, 't> AliasCombination<'s, 't> {
     })
   }
   
-  fn reify_modifiers(&self, modifiers: &Vec<f::Modifier>) -> Result<Vec<KeyCode>, String>
+  fn reify_modifiers(&self, modifiers: &Vec<f::Modifier>) -> (r: Result<Vec<KeyCode>, String>)
     requires
       //@ C14 | data-structure invariants that keep every index in bounds (panic-freedom of the converter)
       self.wf(),
+    ensures
+      //@ C13 | output-side modifiers: plain keys as written, each alias replaced by the keys of the definition chosen for that alias on the trigger side; an error iff an alias does not occur on the trigger side
+      match r { Ok(v) => reify_spec(self.itv(), self.tv(), modifiers@, modifiers@.len() as int) == Some(v@), Err(_) => reify_spec(self.itv(), self.tv(), modifiers@, modifiers@.len() as int) is None },
     { //@ | body
     let mut res = Vec::new();
     proof { axiom_string_key_model(); assert(vstd::std_specs::hash::builds_valid_hashers::<std::collections::hash_map::RandomState>()); }
     broadcast use vstd::std_specs::hash::group_hash_axioms;
     
-    for m in modifiers
+    for m in itm: modifiers
       invariant
         //@ C14 | data-structure invariants that keep every index in bounds (panic-freedom of the converter)
         self.wf(),
         vstd::std_specs::hash::obeys_key_model::<String>(),
         vstd::std_specs::hash::builds_valid_hashers::<std::collections::hash_map::RandomState>(),
+        //@ C13 | keys of the output modifiers handled so far
+        itm.seq().len() == modifiers@.len(), forall|j: int| 0 <= j < modifiers@.len() ==> *itm.seq()[j] == modifiers@[j],
+        reify_spec(*self.it, self.tuple@, modifiers@, itm.index@ as int) == Some(res@),
       { //@ | body
+      //@ C13 | the modifier of this iteration
+      proof { assert(*m == modifiers@[itm.index@ as int]); }
       match m {
         f::Modifier::Key(k) => res.push(*k),
         f::Modifier::Alias(alias) => {
           match self.it.alias_map.get(alias) {
-            None => return Err(format!("Alias used on RHS of mapping that does not appear on LHS: {}", alias)),
+            None => {
+              //@ C13 | an alias that does not occur on the trigger side: the whole list has no meaning
+              proof { lemma_reify_none(*self.it, self.tuple@, modifiers@, itm.index@ as int + 1, modifiers@.len() as int); }
+              return Err(format!("Alias used on RHS of mapping that does not appear on LHS: {}", alias)) },
             Some(i__r) => { let i = *i__r;
               let keys = &self.it.alias_found_mappings[i][self.tuple[i]].from.keys;
+              //@ C13 | ASSUMED contract of Vec::extend: appends the elements of the key list
+              proof { crate::prelude_specs::axiom_ext_items_vec(keys); }
               res.extend(keys);
             }
           }
@@ -613,9 +995,12 @@ impl <'s, 't> AliasCombination<'s, 't> {
   }
 }
 
-//@ C14 | default: impl AliasCombinationIterator<'s, 't>
+//@ C13 C14 | default: impl AliasCombinationIterator<'s, 't>
 impl <'s, 't> AliasCombinationIterator<'s, 't> {
   pub closed spec fn wf(&self) -> bool { self.iterable.wf() && self.combinations.q_view() == self.iterable.alias_quantities@ && self.combinations.fvalid() }
+  /// the combinations (tuples of definition numbers, one per trigger-side alias) still to come, in order
+  pub closed spec fn rem(&self) -> Seq<Seq<usize>> { self.combinations.rem_view() }
+  pub closed spec fn itv(&self) -> AliasCombinationIterable<'t> { *self.iterable }
 }
 //@ C14 | default: impl vstd::std_specs::iter::IteratorSpecImpl for AliasCombinationIterator<'s, 't>
 impl <'s, 't> vstd::std_specs::iter::IteratorSpecImpl for AliasCombinationIterator<'s, 't> {
@@ -625,7 +1010,7 @@ impl <'s, 't> vstd::std_specs::iter::IteratorSpecImpl for AliasCombinationIterat
   closed spec fn peek(&self, i: int) -> Option<AliasCombination<'s, 't>> { None }
   closed spec fn decrease(&self) -> Option<nat> { None }
 }
-//@ C14 | default: impl Iterator for AliasCombinationIterator<'s, 't>
+//@ C13 C14 | default: impl Iterator for AliasCombinationIterator<'s, 't>
 impl <'s, 't> Iterator for AliasCombinationIterator<'s, 't> {
   type Item = AliasCombination<'s, 't>;
   
@@ -633,6 +1018,9 @@ impl <'s, 't> Iterator for AliasCombinationIterator<'s, 't> {
     ensures
       //@ C14 | data-structure invariants that keep every index in bounds (panic-freedom of the converter)
       old(self).wf() ==> final(self).wf() && (match r { Some(c) => c.wf(), None => true }),
+      //@ C13 | the combinations come out one by one in enumeration order, each for the same iterable; None exactly when none is left
+      final(self).itv() == old(self).itv(),
+      old(self).wf() ==> (match r { Some(c) => old(self).rem() == seq![c.tv()] + final(self).rem() && c.itv() == old(self).itv(), None => old(self).rem().len() == 0 && final(self).rem().len() == 0 }),
     { //@ | body
     Some(AliasCombination {
       it: &self.iterable,
@@ -747,6 +1135,8 @@ proof fn lemma_succ_valid(q: Seq<usize>, p: Seq<usize>, i: int)
   assert forall|j: int| 0 <= j < q.len() implies #[trigger] succ_at(p, i)[j] < q[j] by { assert(p[j] < q[j]); assert(q[j] >= 1); }
 }
 
+/// C13: all combinations of definition numbers below the quantities, in little-endian counting order starting from all zeros
+pub open spec fn all_combos(q: Seq<usize>) -> Seq<Seq<usize>> { rem_f(q, Seq::new(q.len(), |l: int| 0usize), total(q) as nat) }
 //@ C14 | default: fn total
 // ---------- real code ----------
 pub open spec fn total(q: Seq<usize>) -> int { w(q, q.len() as int) }
@@ -768,6 +1158,7 @@ fn multiply<'s>(quantities: &'s Vec<usize>) -> (r: MultiplyIter<'s>)
     //@ C13 | MultiplyIter enumerates every tuple below the quantities exactly once, in little-endian counting order
     r.q_view() == quantities@,
     r.fvalid(),
+    r.rem_view() == all_combos(quantities@),
   { //@ | body
   MultiplyIter::new(quantities)
 }
@@ -834,7 +1225,7 @@ impl <'s> std::iter::Iterator for MultiplyIter<'s> {
       final(self).q_view() == old(self).q_view(),
       old(self).fvalid() ==> final(self).fvalid()
         && (match r { Some(v) => old(self).rem_view() == seq![v@] + final(self).rem_view() && valid(old(self).q_view(), v@),
-                      None => old(self).rem_view().len() == 0 }),
+                      None => old(self).rem_view().len() == 0 && final(self).rem_view().len() == 0 }),
   {
     if self.done {
       None
